@@ -134,8 +134,8 @@ theorem index_string_yields_string (s : String) (i : I64) (x : Val)
 
 /-- the six run-time errors of the model are exactly the variants of `ExecError` in the source -/
 theorem runtime_errors_are_the_documented_ones :
-    [ExecErr.IndexOutOfBounds, .NegativeLength, .NegativeExponent, .ZeroDivision, .ZeroModulo,
-     .OverflowShift].map ExecErr.name = Gen.execErrors := by decide
+    [ExecErr.IndexOutOfBounds, .NegativeExponent, .NegativeLength, .OverflowShift, .ZeroDivision,
+     .ZeroModulo].map ExecErr.name = Gen.execErrors := by decide
 
 /-! ## non-vacuity -/
 example : fo (.arr .int [.int 1, .tup [.str "a", .unit]]) = true := by simp [fo, foL]
